@@ -271,9 +271,9 @@ def r17_3(prog, rep):
 
 def run(prog, rep, tier, snap):
     rep.rule("R17.1", "SHIFT bit layout: writer and all readers agree", 10)
-    r17_1(prog, rep)
+    rep.call(r17_1, prog, rep)
     rep.rule("R17.2", "pipeline order and BYEASTER guard", 8)
-    r17_2(prog, rep)
+    rep.call(r17_2, prog, rep)
     rep.rule("R17.3", "calendar helpers are asked about the carried (year, month) pair", 4)
-    r17_3(prog, rep)
+    rep.call(r17_3, prog, rep)
 READY = True
